@@ -10,6 +10,7 @@ for d in /tmp/seed/C*-out/mutant-*; do
     *c) prop=${p%c}; id="$prop-w3m$m" ;;
     *d) prop=${p%d}; id="$prop-w4m$m" ;;
     *e) prop=${p%e}; id="$prop-w5m$m" ;;
+    *f) prop=${p%f}; id="$prop-w6m$m" ;;
     *)  prop=$p; id="$p-m$m" ;;
   esac
   [ -f "seeded/$id/meta.json" ] && continue
